@@ -646,7 +646,7 @@ pub fn run(op: &str, a: &Args) -> Option<Args> {
                 let rbm = if f.kind == 2 { m.header_as_dictionary_batch()?.data()? } else { m.header_as_record_batch()? };
                 let body = &bytes[f.body_pos..f.body_pos + f.body_len];
                 let bufs = rbm.buffers()?;
-                out.push(gs(&[f.kind, f.is_delta, f.id, f.rows, bufs.len() as i64]));
+                out.push(gs(&[f.kind, f.is_delta, f.id, f.rows, bufs.len() as i64, f.body_len as i64]));
                 out.push(rbm.nodes()?.iter().flat_map(|x| [BigInt::from(x.length()), BigInt::from(x.null_count())]).collect());
                 out.push(gs(&f.vars));
                 for x in bufs.iter() { out.push(gbytes(&body[x.offset() as usize..(x.offset() + x.length()) as usize])) }
@@ -874,6 +874,8 @@ fn tag_ty(t: &Ty) -> &'static str {
 }
 
 pub fn gen_case(r: &mut Rng, tier: &str) -> CaseData {
+    // C04_FINDINGS=1 switches the exclusions off: used once to collect the witnesses in replays/C04-known-finding-candidates.cases
+    let findings = std::env::var("C04_FINDINGS").is_ok();
     let kind = *r.pick(&[0i64, 0, 0, 1, 1, 1, 2, 2, 3, 3, 3, 4, 5]);
     let mut v5 = r.chance(3, 4);
     let mut legacy = !v5 && r.chance(1, 3);
@@ -886,19 +888,19 @@ pub fn gen_case(r: &mut Rng, tier: &str) -> CaseData {
             // KNOWN-FINDING candidate (Flight, Union): FlightDataEncoder::prepare_field_for_flight rebuilds every Union-typed
             // field with Field::new_union: the field becomes non-nullable and loses its metadata, so the decoded schema
             // differs from the input schema, and for nested unions encoding fails (cast Union -> Union / validation errors)
-            if kind == 3 && any_ty(&t, &|x| matches!(x, Ty::Union { .. })) { continue }
+            if !findings && kind == 3 && any_ty(&t, &|x| matches!(x, Ty::Union { .. })) { continue }
             // KNOWN-FINDING candidates (Flight, DictionaryHandling::Hydrate goes through arrow_cast::cast):
             //   Dictionary<_, RunEndEncoded<..>> loses the run-end / values field names and metadata of the target type
             //   ("column types must match schema types"); zero-width FixedSizeBinary(0) / FixedSizeList(_, 0) next to a
             //   dictionary lose their row count ("all columns in a record batch must have the specified row count")
-            if kind == 3 && fdh == 0 && any_ty(&t, &|x| matches!(x, Ty::Dict { .. })) {
+            if !findings && kind == 3 && fdh == 0 && any_ty(&t, &|x| matches!(x, Ty::Dict { .. })) {
                 if any_ty(&t, &|x| matches!(x, Ty::Dict { v, .. } if any_ty(v, &|y| matches!(y, Ty::Ree { .. })))) { continue }
                 if any_ty(&t, &|x| matches!(x, Ty::Ree { v, .. } if any_ty(v, &|y| matches!(y, Ty::Dict { .. })))) { continue }
                 if any_ty(&t, &|x| matches!(x, Ty::FixedBin(0) | Ty::FixedList { n: 0, .. })) { continue }
             }
             // KNOWN-FINDING candidate (delta dictionaries): DictionaryUpdate::Delta slices the new values with ArrayData::slice;
             // a Union in the values (directly or through Struct / FixedSizeList) is then written ignoring the slice (class A)
-            if dh == 1 && any_ty(&t, &|x| matches!(x, Ty::Dict { v, .. } if union_reachable(v))) { continue }
+            if !findings && dh == 1 && any_ty(&t, &|x| matches!(x, Ty::Dict { v, .. } if union_reachable(v))) { continue }
             break t;
         };
         Col { ty, nullable: r.chance(3, 4) || logical_nulls(&ty_dummy()), name: r.below(12) as i64, meta: r.below(5) as i64, deco: (0..24).map(|_| r.below(1000) as i64).collect() }
@@ -906,7 +908,7 @@ pub fn gen_case(r: &mut Rng, tier: &str) -> CaseData {
     let cols: Vec<Col> = cols.into_iter().map(|mut c| { if logical_nulls(&c.ty) { c.nullable = true } c }).collect();
     // KNOWN-FINDING candidate (MetadataVersion::V4 + RunEndEncoded): the V4 writer emits a validity buffer for the run array
     // (has_validity_bitmap) that the reader never consumes; every later buffer is shifted by one and the read fails
-    if cols.iter().any(|c| any_ty(&c.ty, &|x| matches!(x, Ty::Ree { .. }))) { v5 = true; legacy = false }
+    if !findings && cols.iter().any(|c| any_ty(&c.ty, &|x| matches!(x, Ty::Ree { .. }))) { v5 = true; legacy = false }
     let comp = if v5 && r.chance(1, if tier == "thorough" { 2 } else { 4 }) { 1 + r.below(2) as i64 } else { 0 };
     let opts = Opts { kind, align: *r.pick(&[8i64, 16, 32, 64]), v5, legacy, comp, dh,
         fmax: *r.pick(&[1i64, 16, 64, 200, 1000, 2097152]), fdh, share: r.bool(), chunk_seed: r.below(1 << 30) as i64, with_schema: r.bool() };
@@ -931,9 +933,9 @@ pub fn gen_case(r: &mut Rng, tier: &str) -> CaseData {
                 // KNOWN-FINDING candidates A (Union under a non-trivial ArrayData::slice) and B (empty slice of a non-empty
                 // RunEndEncoded array), see `hazard`: such layouts are not generated
                 tries += 1;
-                if (col_hazard(&n, slice) || dict_hazard(&n)) && tries < 200 { continue }
+                if !findings && (col_hazard(&n, slice) || dict_hazard(&n)) && tries < 200 { continue }
                 // Flight cuts a batch into row ranges (array-level slices): no piece may fall into class A / B either
-                if kind == 3 && tries < 200 {
+                if !findings && kind == 3 && tries < 200 {
                     let base = slice.map_or(0, |x| x.0);
                     if (0..rows).any(|o| (1..=rows - o).any(|l| hazard(&n, base + o, l, false))) { continue }
                 }
@@ -969,7 +971,7 @@ pub fn case_has_hazard(c: &CaseData) -> bool {
 }
 
 pub fn generate(tier: &str, r: &mut Rng, emit: &mut dyn FnMut(Case)) {
-    let n = if tier == "thorough" { 6000 } else { 600 };
+    let n = if tier == "thorough" { 12000 } else { 1200 };
     for _ in 0..n / 2 {
         let hi = if r.bool() { 12 } else { 300 };
         let rows = if r.chance(1, 10) { 0 } else { r.below(hi) };
@@ -979,7 +981,7 @@ pub fn generate(tier: &str, r: &mut Rng, emit: &mut dyn FnMut(Case)) {
     }
     for _ in 0..n {
         let c = gen_case(r, tier);
-        if case_has_hazard(&c) { continue }
+        if case_has_hazard(&c) && std::env::var("C04_FINDINGS").is_err() { continue }
         let args = encode_case(&c);
         let types: Vec<&str> = c.cols.iter().map(|c| tag_ty(&c.ty)).collect();
         let tag = format!("k{} a{} v{}{} c{} d{} f{} nb{} {}", c.opts.kind, c.opts.align, if c.opts.v5 { 5 } else { 4 }, if c.opts.legacy { "L" } else { "" }, c.opts.comp, c.opts.dh, c.opts.fdh, c.batches.len(), types.join("+"));
